@@ -164,26 +164,7 @@ func (c *Ctx) c09Words() {
 		counts = append(counts, n, -n, n*4, n+1)
 	}
 	counts = append(counts, extremeInts...)
-	// values that alias a legal count after a narrowing conversion or an intermediate overflow
-	// (n*4, n+n/3 …): ±2^k + {12,15,18,21,24}, and the same offsets from the int extremes
-	for _, k := range []uint{7, 8, 15, 16, 31, 32, 33, 48, 60, 61, 62} {
-		for _, d := range []int64{12, 15, 18, 21, 24} {
-			counts = append(counts, int64(1)<<k+d, -(int64(1)<<k)+d, int64(1)<<k-d)
-		}
-	}
-	for _, d := range []int64{12, 15, 18, 21, 24} {
-		counts = append(counts, math.MinInt64+d, math.MaxInt64-d, math.MaxInt64-d+1)
-		// w + j·c·2^k: aliases of w under n/3*32, n*4/3, n*11 … computed in 64 bits
-		for _, k := range []uint{55, 56, 57, 58, 59, 60, 61} {
-			for _, cc := range []int64{1, 3, 5, 11} {
-				for j := int64(-5); j <= 5; j++ {
-					if j != 0 {
-						counts = append(counts, d+j*cc*(int64(1)<<k))
-					}
-				}
-			}
-		}
-	}
+	counts = append(counts, aliasCounts()...)
 	for _, n := range counts {
 		for _, li := range []int{2, 5} {
 			impl := c.newm("word-count-sweep", n, int64(langVals[li]), "")
@@ -437,4 +418,31 @@ func (c *Ctx) sharedReaderCalls() {
 			bip39.VerifSwapRandSource(prev)
 		}
 	}
+}
+
+// aliasCounts: values that alias a legal word count after a narrowing conversion or an intermediate
+// 64-bit overflow (n*4, n+n/3, n/3*32, n*11 …).
+func aliasCounts() []int64 {
+	var counts []int64
+	// values that alias a legal count after a narrowing conversion or an intermediate overflow
+	// (n*4, n+n/3 …): ±2^k + {12,15,18,21,24}, and the same offsets from the int extremes
+	for _, k := range []uint{7, 8, 15, 16, 31, 32, 33, 48, 60, 61, 62} {
+		for _, d := range []int64{12, 15, 18, 21, 24} {
+			counts = append(counts, int64(1)<<k+d, -(int64(1)<<k)+d, int64(1)<<k-d)
+		}
+	}
+	for _, d := range []int64{12, 15, 18, 21, 24} {
+		counts = append(counts, math.MinInt64+d, math.MaxInt64-d, math.MaxInt64-d+1)
+		// w + j·c·2^k: aliases of w under n/3*32, n*4/3, n*11 … computed in 64 bits
+		for _, k := range []uint{55, 56, 57, 58, 59, 60, 61} {
+			for _, cc := range []int64{1, 3, 5, 11} {
+				for j := int64(-5); j <= 5; j++ {
+					if j != 0 {
+						counts = append(counts, d+j*cc*(int64(1)<<k))
+					}
+				}
+			}
+		}
+	}
+	return counts
 }
